@@ -18,7 +18,7 @@ pub struct Case {
 }
 
 fn strategy(injective: bool) -> impl Strategy<Value = Case> {
-	let cfg = GenCfg { ns_min: 2, ns_max: 4, p_missing: if injective { 0 } else { 12 }, style: TargetStyle::Arbitrary, injective, max_classes: 5, ..GenCfg::default() };
+	let cfg = GenCfg { ns_min: 2, ns_max: 4, p_missing: if injective { 0 } else { 12 }, style: TargetStyle::Arbitrary, injective, max_classes: 5, lone_surrogates: true, ..GenCfg::default() };
 	(mapset(cfg), order_seed(), any::<u8>()).prop_map(|(mut m, order, ns_draw)| {
 		crate::mapmodel::gen::confusable_namespaces(&mut m, ns_draw);
 		Case { m, order }
